@@ -62,32 +62,52 @@ def sh(cmd, cwd, env=None, timeout=None, mem_gb=None, log=None, needle=None):
     return rc, out
 
 
-def run_group(base, harnesses, features, jobs, harness_timeout, mem_gb, tag, unwind_override=None):
-    """one cargo-kani invocation over a list of harness infos. returns dict name -> result"""
-    crate = os.path.join(base, "crate")
-    tdir = os.path.join(base, "kt" + ("-" + "-".join(features) if features else ""))
-    outjson = os.path.join(base, "kani-%s.json" % tag)
-    if os.path.exists(outjson):
-        os.remove(outjson)
-    cmd = ["cargo", "kani", "--target-dir", tdir, "-Z", "stubbing", "-Z", "unstable-options",
-           "--output-format", "terse", "-j", str(jobs), "--harness-timeout", "%ds" % harness_timeout,
-           "--export-json", outjson, "--exact"]
+def _harness_arg(h):
+    return h["module"].replace("crate::", "", 1) + "::" + h["name"]
+
+
+def _base_cmd(tdir, features):
+    cmd = ["cargo", "kani", "--target-dir", tdir, "-Z", "stubbing", "-Z", "unstable-options"]
     if features:
         cmd += ["--features", ",".join(features)]
+    return cmd
+
+
+LOOP_RE = re.compile(r"^Loop (\S+):\n\s+file (\S+) line (\d+)(?: column \d+)? function (.*)$", re.M)
+
+
+def show_loops(base, harnesses, features, tdir, tag):
+    """-> list of (loop_id, function_path) over the union of the given harnesses (also builds everything once)"""
+    crate = os.path.join(base, "crate")
+    cmd = _base_cmd(tdir, features) + ["--output-format", "old", "--exact"]
     for h in harnesses:
-        cmd += ["--harness", h["module"].replace("crate::", "", 1) + "::" + h["name"]]
-    log = os.path.join(base, "kani-%s.log" % tag)
-    # total wall cap: generous multiple of the per-harness cap
-    waves = (len(harnesses) + jobs - 1) // jobs
-    rc, out = sh(cmd, crate, timeout=harness_timeout * waves + 600, mem_gb=mem_gb, log=log, needle=base)
-    res = {}
-    if re.search(r"^error(\[E\d+\])?:", out, re.M) and not os.path.exists(outjson):
-        errs = re.findall(r"^error[^\n]*\n(?:[^\n]*\n){0,6}", out, re.M)
-        return None, "overlay/harness does not compile against the current tree:\n" + "".join(errs[:5])
-    if not os.path.exists(outjson):
-        return None, "cargo kani produced no result file (rc=%s); tail:\n%s" % (rc, out[-3000:])
+        cmd += ["--harness", _harness_arg(h)]
+    cmd += ["--cbmc-args", "--show-loops"]
+    rc, out = sh(cmd, crate, timeout=1800, log=os.path.join(base, "kani-%s-loops.log" % tag))
+    loops = sorted(set((m.group(1), m.group(4).strip()) for m in LOOP_RE.finditer(out)))
+    return loops, out
+
+
+def resolve_unwindset(h, loops):
+    """harness annotation [(regex[#k], n)] -> 'loopid:n,...' ; every pattern must match at least one loop"""
+    items, missing = [], []
+    for (pat, n) in h.get("unwindset", []):
+        idx = None
+        if "#" in pat:
+            pat, idx = pat.rsplit("#", 1)
+        hit = False
+        for (lid, fn) in loops:
+            if re.search(pat, fn) and (idx is None or lid.endswith("." + idx)):
+                items.append("%s:%d" % (lid, n))
+                hit = True
+        if not hit:
+            missing.append(pat)
+    return ",".join(sorted(set(items))), missing
+
+
+def _parse_results(outjson, res):
     d = json.load(open(outjson))
-    stats = {c["harness_id"]: c.get("cbmc_stats", {}) for c in d.get("cbmc", [])}
+    stats = {c["harness_id"]: (c.get("cbmc_stats") or {}) for c in d.get("cbmc", [])}
     errs = {c["harness_id"]: c for c in d.get("error_details", [])}
     for r in d["verification_results"]["results"]:
         name = r["harness_id"].split("::")[-1]
@@ -95,8 +115,79 @@ def run_group(base, harnesses, features, jobs, harness_timeout, mem_gb, tag, unw
         failed = [c for c in checks if c["status"] in ("Failure", "Undetermined", "SolverError")]
         covers = [c for c in checks if c.get("category") == "cover"]
         res[name] = dict(full=r["harness_id"], status=r["status"], duration_s=r.get("duration_ms", 0) / 1000.0,
-                         n_checks=len(checks), failed=failed, covers=covers, stats=stats.get(r["harness_id"], {}),
+                         n_checks=len(checks), failed=failed, covers=covers, stats=stats.get(r["harness_id"]) or {},
                          err=errs.get(r["harness_id"], {}))
+
+
+def run_group(base, harnesses, features, jobs, harness_timeout, mem_gb, tag, unwind_override=None):
+    """Kani over a list of harness infos. Harnesses without a per-loop unwindset go through one `cargo kani -j`; harnesses
+    annotated with `verif-unwindset` get their own invocation (CBMC --unwindset resolved from --show-loops). returns dict name -> result"""
+    from concurrent.futures import ThreadPoolExecutor
+    crate = os.path.join(base, "crate")
+    tdir = os.path.join(base, "kt" + ("-" + "-".join(features) if features else ""))
+    plain = [h for h in harnesses if not h.get("unwindset")]
+    special = [h for h in harnesses if h.get("unwindset")]
+    res = {}
+    log = os.path.join(base, "kani-%s.log" % tag)
+    loops = []
+    if special:
+        loops, out = show_loops(base, special, features, tdir, tag)
+        if re.search(r"^error(\[E\d+\])?:", out, re.M) and not loops:
+            errs = re.findall(r"^error[^\n]*\n(?:[^\n]*\n){0,6}", out, re.M)
+            return None, "overlay/harness does not compile against the current tree:\n" + "".join(errs[:5])
+
+    def run_plain():
+        if not plain:
+            return None
+        outjson = os.path.join(base, "kani-%s.json" % tag)
+        if os.path.exists(outjson):
+            os.remove(outjson)
+        pj = max(1, jobs - len(special))
+        cmd = _base_cmd(tdir, features) + ["--output-format", "terse", "-j", str(pj), "--harness-timeout", "%ds" % harness_timeout,
+                                           "--export-json", outjson, "--exact"]
+        for h in plain:
+            cmd.append("--harness")
+            cmd.append(_harness_arg(h))
+        waves = (len(plain) + pj - 1) // pj
+        rc, out = sh(cmd, crate, timeout=harness_timeout * waves + 600, mem_gb=mem_gb, log=log, needle=base)
+        if re.search(r"^error(\[E\d+\])?:", out, re.M) and not os.path.exists(outjson):
+            errs = re.findall(r"^error[^\n]*\n(?:[^\n]*\n){0,6}", out, re.M)
+            return "overlay/harness does not compile against the current tree:\n" + "".join(errs[:5])
+        if not os.path.exists(outjson):
+            return "cargo kani produced no result file (rc=%s); tail:\n%s" % (rc, out[-3000:])
+        _parse_results(outjson, res)
+        return None
+
+    def run_special(h):
+        uws, missing = resolve_unwindset(h, loops)
+        if missing:
+            res[h["name"]] = dict(full=h["name"], status="Missing", duration_s=0, n_checks=0, failed=[], covers=[], stats={},
+                                  err={"note": "unwindset pattern(s) %s match no loop of the current tree" % missing})
+            return
+        outjson = os.path.join(base, "kani-%s-%s.json" % (tag, h["name"]))
+        if os.path.exists(outjson):
+            os.remove(outjson)
+        cmd = _base_cmd(tdir, features) + ["--output-format", "terse", "--harness-timeout", "%ds" % harness_timeout,
+                                           "--export-json", outjson, "--exact", "--harness", _harness_arg(h),
+                                           "--cbmc-args", "--unwindset", uws]
+        rc, out = sh(cmd, crate, timeout=harness_timeout + 600, mem_gb=mem_gb,
+                     log=os.path.join(base, "kani-%s-%s.log" % (tag, h["name"])), needle=base)
+        if os.path.exists(outjson):
+            _parse_results(outjson, res)
+            if h["name"] in res:
+                res[h["name"]]["unwindset"] = uws
+
+    with ThreadPoolExecutor(max_workers=max(1, jobs)) as ex:
+        futs = []
+        if special:
+            # build once (show_loops already did); the per-harness invocations only pick their goto binary
+            futs += [ex.submit(run_special, h) for h in special]
+        fp = ex.submit(run_plain)
+        err = fp.result()
+        for f in futs:
+            f.result()
+    if err:
+        return None, err
     for h in harnesses:
         if h["name"] not in res:
             res[h["name"]] = dict(full=h["name"], status="Missing", duration_s=0, n_checks=0, failed=[], covers=[],
@@ -107,15 +198,17 @@ def run_group(base, harnesses, features, jobs, harness_timeout, mem_gb, tag, unw
 PLAY_RE = re.compile(r"/// Test generated for harness `([^`]*)`[^\n]*\n((?:///[^\n]*\n)*)\s*#\[test\]\s*\nfn (\w+)\(\) \{\s*\n\s*let concrete_vals: Vec<Vec<u8>> = vec!\[(.*?)\n\s*\];", re.S)
 
 
-def playback(base, h, features, mem_gb, timeout):
+def playback(base, h, features, mem_gb, timeout, unwindset=None):
     """re-run one failing harness with concrete playback; returns list of (what, bytes)"""
     crate = os.path.join(base, "crate")
     tdir = os.path.join(base, "kt" + ("-" + "-".join(features) if features else ""))
-    cmd = ["cargo", "kani", "--target-dir", tdir, "-Z", "stubbing", "-Z", "concrete-playback",
+    cmd = ["cargo", "kani", "--target-dir", tdir, "-Z", "stubbing", "-Z", "concrete-playback", "-Z", "unstable-options",
            "--concrete-playback=print", "--exact", "--harness",
            h["module"].replace("crate::", "", 1) + "::" + h["name"]]
     if features:
         cmd += ["--features", ",".join(features)]
+    if unwindset:
+        cmd += ["--cbmc-args", "--unwindset", unwindset]
     rc, out = sh(cmd, crate, timeout=timeout, mem_gb=mem_gb, log=os.path.join(base, "playback-%s.log" % h["name"]), needle=base)
     tests = []
     for m in PLAY_RE.finditer(out):
